@@ -366,8 +366,10 @@ func (r *rw) goStmt(g *ast.GoStmt) ast.Stmt {
 		newArgs[i] = ast.NewIdent(name)
 	}
 	fun := call.Fun
-	if fl, ok := fun.(*ast.FuncLit); ok {
-		pre = append(pre, &ast.AssignStmt{Lhs: []ast.Expr{ast.NewIdent("_vf")}, Tok: token.DEFINE, Rhs: []ast.Expr{fl}})
+	// The function value of a go statement is evaluated when the statement executes (a method value binds its
+	// receiver, a field read happens now): bind it before the closure, unless it is a plain identifier.
+	if _, isIdent := fun.(*ast.Ident); !isIdent {
+		pre = append(pre, &ast.AssignStmt{Lhs: []ast.Expr{ast.NewIdent("_vf")}, Tok: token.DEFINE, Rhs: []ast.Expr{fun}})
 		fun = ast.NewIdent("_vf")
 	}
 	inner := &ast.CallExpr{Fun: fun, Args: newArgs, Ellipsis: call.Ellipsis}
